@@ -170,7 +170,22 @@ def tie_shape(levels):
     return "multi_way"
 
 
-ENC_STYLES = ["int", "int0", "float", "mixed", "neg", "big", "bool", "negzero", "hugefloat", "tinyfloat"]
+ENC_STYLES = ["int", "int0", "float", "mixed", "neg", "big", "bool", "negzero", "hugefloat", "tinyfloat", "beyond_double",
+              "subclass"]
+
+
+class _F(float):
+    """a float subclass (what numpy.float64 is to the library): accepted by isinstance(x, float)"""
+
+    def __neg__(self):
+        return _F(-float(self))
+
+
+class _I(int):
+    """an int subclass (what an IntEnum member is to the library)"""
+
+    def __neg__(self):
+        return _I(-int(self))
 
 
 def encode_levels(rng, levels, style=None):
@@ -231,6 +246,19 @@ def encode_levels(rng, levels, style=None):
             vals = [float(i) for i in range(n)]
     elif style == "tinyfloat":
         vals = [i * 5e-324 for i in range(n)]
+    elif style == "beyond_double":
+        # Python ints order exactly whatever their size; these cannot be converted to float at all
+        cur = rng.choice([10 ** 309, -(10 ** 400), 2 ** 5000])
+        vals = []
+        for _ in uniq:
+            vals.append(cur)
+            cur += rng.choice([1, 7, 10 ** 300])
+    elif style == "subclass":
+        cur = rng.choice([0, 1, -3])
+        vals = []
+        for _ in uniq:
+            vals.append(_I(cur) if rng.random() < 0.5 else _F(cur + 0.5))
+            cur += rng.choice([1, 2])
     m = dict(zip(uniq, vals))
     out = [m[l] for l in levels]
     if style == "mixed":
@@ -242,6 +270,22 @@ def encode_levels(rng, levels, style=None):
     elif style == "bool" and rng.random() < 0.5:
         out = [rng.choice([v, int(v), float(v)]) for v in out]
     return out, style
+
+
+def tag_vals(vals):
+    """(plain values, type tags) so that subclass-typed rank values survive the JSON round trip of a replay file"""
+    if vals is None:
+        return None, None
+    tags = ["F" if isinstance(v, _F) else ("I" if isinstance(v, _I) else "") for v in vals]
+    if not any(tags):
+        return list(vals), None
+    return [float(v) if t == "F" else (int(v) if t == "I" else v) for v, t in zip(vals, tags)], tags
+
+
+def untag_vals(vals, tags):
+    if not tags:
+        return list(vals)
+    return [_F(v) if t == "F" else (_I(v) if t == "I" else v) for v, t in zip(vals, tags)]
 
 
 def outcome_kwargs(rng, levels, style=None, as_=None):
@@ -267,7 +311,10 @@ def gen_case(rng, model=None, regime=None, kmax=8, pmax=8, cfg=None, int_only=Fa
         call["tau"] = rng.choice([0, 0.0, 1e-3 * b, 25.0 / 300.0, b, 10 * b])
     if percall and rng.random() < 0.25:
         call["limit_sigma"] = rng.choice([True, False])
+    vals, tags = tag_vals(vals)
     case = dict(model=model, cfg=cfg, teams=teams, sel=sel, vals=vals, call=call)
+    if tags:
+        case["vals_tags"] = tags
     if rng.random() < 0.08:
         case["ids"] = "shared"
     meta = dict(regime=regime, levels=lv, enc=style, ties=tie_shape(lv), k=len(teams))
